@@ -238,6 +238,10 @@ class VolumeGrid(VolumeData):
         if coords.dtype == np.dtype(np.intp):
             coords = coords.astype(np.dtype(coords.dtype.str))
         data = self.get_fdata()
+        if interpolation_order > 0 and data.dtype.kind in 'biu':
+            # ndimage returns the input's dtype: interpolate integer and
+            # boolean data in floating point rather than rounding the result
+            data = data.astype(np.float64)
         data_shape = list(data.shape)
         n_dims = len(data_shape)
         if n_dims > 3:
